@@ -118,6 +118,24 @@ def verdict (m : String) (m2 spec : Option String) : String :=
     else if m2 != some m then ok m ++ " !model-oracle-dependence nofilter=" ++ (m2.getD "?") ++ " spec=" ++ s
     else ok m ++ " !model-spec-mismatch spec=" ++ s
 
+/-- big integers above this bit length are compared by the value-level tables (equal to the word-level ones by
+    `Props/C14Link` `num_partial_cmp_mirrored` …): C05's canonical-representation builder `natWords` is quadratic -/
+def wordCmpLimit : Nat := 2 ^ 17
+
+def giant : Num → Bool
+  | .ubig n => bitLen n > wordCmpLimit
+  | .ibig i => bitLen i.natAbs > wordCmpLimit
+  | _ => false
+
+def numPartialCmpD (W : Nat) (o : Oracle) (x y : Num) : Option (Option Ordering) :=
+  if giant x || giant y then numPartialCmp o x y else numPartialCmpW W o x y
+def numEqD (W : Nat) (o : Oracle) (x y : Num) : Option Bool :=
+  if giant x || giant y then numEq o x y else numEqW W o x y
+def absCmpD (W : Nat) (o : Oracle) (x y : Num) : Option Ordering :=
+  if giant x || giant y then absCmp o x y else absCmpW W o x y
+def ordCmpD (W : Nat) (o : Oracle) (x y : Num) : Option Ordering :=
+  if giant x || giant y then ordCmp o x y else ordCmpW W o x y
+
 /-- third oracle (table path): must give the same answer as the bit-length oracle -/
 def withTable (m : String) (m3 : Option String) (line : String) : String :=
   if m3 == some m then line else line ++ " !model-oracle-dependence nostd=" ++ (m3.getD "?")
@@ -137,23 +155,23 @@ def dispatch : Dispatch := fun W0 op args =>
   match op, args with
   | "numcmp", [a, b] => do
     let x ← parseNum a; let y ← parseNum b
-    match numPartialCmpW W Oracle.coarse x y with
+    match numPartialCmpD W Oracle.coarse x y with
     | none => pure (ok "nopair")
     | some m =>
-      let m3 := (numPartialCmpW W (EstNoStd.noStdExactOracle W) x y).map optOrdStr
+      let m3 := (numPartialCmpD W (EstNoStd.noStdExactOracle W) x y).map optOrdStr
       if small x y then
-        let m2 := (numPartialCmpW W Oracle.noFilter x y).map optOrdStr
+        let m2 := (numPartialCmpD W Oracle.noFilter x y).map optOrdStr
         let spec := optOrdStr (XVal.cmp x.value y.value)
         pure (withTable (optOrdStr m) m3 (verdict (optOrdStr m) m2 (some spec)))
       else pure (withTable (optOrdStr m) m3 (verdict (optOrdStr m) none none))
   | "numeq", [a, b] => do
     let x ← parseNum a; let y ← parseNum b
-    match numEqW W Oracle.coarse x y with
+    match numEqD W Oracle.coarse x y with
     | none => pure (ok "nopair")
     | some m =>
-      let m3 := (numEqW W (EstNoStd.noStdExactOracle W) x y).map boolStr
+      let m3 := (numEqD W (EstNoStd.noStdExactOracle W) x y).map boolStr
       if small x y then
-        let m2 := (numEqW W Oracle.noFilter x y).map boolStr
+        let m2 := (numEqD W Oracle.noFilter x y).map boolStr
         let spec := boolStr (XVal.cmp x.value y.value == some .eq)
         pure (withTable (boolStr m) m3 (verdict (boolStr m) m2 (some spec)))
       else pure (withTable (boolStr m) m3 (verdict (boolStr m) none none))
@@ -169,12 +187,12 @@ def dispatch : Dispatch := fun W0 op args =>
       | _, _ =>
         if spec == "none" then none else pure (ok spec)
     else
-    match absCmpW W Oracle.coarse x y with
+    match absCmpD W Oracle.coarse x y with
     | none => pure (ok "nopair")
     | some m =>
-      let m3 := (absCmpW W (EstNoStd.noStdExactOracle W) x y).map ordStr
+      let m3 := (absCmpD W (EstNoStd.noStdExactOracle W) x y).map ordStr
       if small x y then
-        let m2 := (absCmpW W Oracle.noFilter x y).map ordStr
+        let m2 := (absCmpD W Oracle.noFilter x y).map ordStr
         let spec := optOrdStr (XVal.absCmp x.value y.value)
         pure (withTable (ordStr m) m3 (verdict (ordStr m) m2 (some spec)))
       else pure (withTable (ordStr m) m3 (verdict (ordStr m) none none))
@@ -190,13 +208,17 @@ def dispatch : Dispatch := fun W0 op args =>
     else
     match x, y with
     | .ubig v, .ubig w =>
-      let m := boolStr (intAbsEqW W v w); pure (verdict m (some m) (some spec))
+      let m := boolStr (if giant x || giant y then (v : Int).natAbs == (w : Int).natAbs else intAbsEqW W v w)
+      pure (verdict m (some m) (some spec))
     | .ubig v, .ibig w =>
-      let m := boolStr (intAbsEqW W v w); pure (verdict m (some m) (some spec))
+      let m := boolStr (if giant x || giant y then (v : Int).natAbs == (w : Int).natAbs else intAbsEqW W v w)
+      pure (verdict m (some m) (some spec))
     | .ibig v, .ubig w =>
-      let m := boolStr (intAbsEqW W v w); pure (verdict m (some m) (some spec))
+      let m := boolStr (if giant x || giant y then (v : Int).natAbs == (w : Int).natAbs else intAbsEqW W v w)
+      pure (verdict m (some m) (some spec))
     | .ibig v, .ibig w =>
-      let m := boolStr (intAbsEqW W v w); pure (verdict m (some m) (some spec))
+      let m := boolStr (if giant x || giant y then (v : Int).natAbs == (w : Int).natAbs else intAbsEqW W v w)
+      pure (verdict m (some m) (some spec))
     | .rbig n1 d1, .rbig n2 d2 =>
       -- `numerator.abs_eq && denominator ==` on canonical representations
       let m := boolStr (n1.natAbs == n2.natAbs && d1 == d2)
@@ -207,12 +229,12 @@ def dispatch : Dispatch := fun W0 op args =>
     | _, _ => pure (ok "nopair")
   | "ordcmp", [a, b] => do
     let x ← parseNum a; let y ← parseNum b
-    match ordCmpW W Oracle.coarse x y with
+    match ordCmpD W Oracle.coarse x y with
     | none => pure (ok "nopair")
     | some m =>
-      let m3 := (ordCmpW W (EstNoStd.noStdExactOracle W) x y).map ordStr
+      let m3 := (ordCmpD W (EstNoStd.noStdExactOracle W) x y).map ordStr
       if small x y then
-        let m2 := (ordCmpW W Oracle.noFilter x y).map ordStr
+        let m2 := (ordCmpD W Oracle.noFilter x y).map ordStr
         let spec := optOrdStr (XVal.cmp x.value y.value)
         pure (withTable (ordStr m) m3 (verdict (ordStr m) m2 (some spec)))
       else pure (withTable (ordStr m) m3 (verdict (ordStr m) none none))
